@@ -64,7 +64,8 @@ Silent(S2) == One(S2, NoLab)
 NewThread(x, kind, mode, i, obj, pt, pl, idx, w) ==
   [x |-> x, kind |-> kind, mode |-> mode, i |-> i, res |-> NilPR, obj |-> obj, w |-> w,
    cell |-> [j \in 1..N |-> "-"], cellres |-> [j \in 1..N |-> NilPR],
-   hg |-> [j \in 1..N |-> [count |-> 0, sent |-> FALSE, chan |-> <<>>, n |-> 0, aobj |-> <<>>]],
+   hg |-> [j \in 1..N |-> [count |-> 0, sent |-> FALSE, chan |-> <<>>, n |-> 0, aobj |-> <<>>, gen |-> 0]],
+   gen |-> 0,
    oldobj |-> [j \in 1..N |-> 0], pt |-> pt, pl |-> pl, idx |-> idx, sub |-> "-", snap |-> NoLast]
 
 \* what user code reads from the execution it is handed (counters are shared atomics; last result is per copy)
@@ -106,9 +107,12 @@ DownSteps(S, t) ==
          IN Silent(S1)
     [] p.k = "hg" ->
          LET X1 == NewObj(X, o, FALSE)   c == Len(X1.objs)
-             at == NewThread(T.x, "att", "down", i + 1, c, t, i, 0, NoWait)
+             \* (each application of the hedge policy has its own counter / flag / channel: attempts of an earlier
+             \*  application that are still running carry the earlier generation and no longer matter)
+             g == T.hg[i].gen + 1
+             at == [NewThread(T.x, "att", "down", i + 1, c, t, i, 0, NoWait) EXCEPT !.gen = g]
              S1 == [SetX(S, t, X1) EXCEPT !.th = Append(@, at),
-                                          !.th[t].hg[i] = [count |-> 0, sent |-> FALSE, chan |-> <<>>, n |-> 1, aobj |-> <<c>>]]
+                                          !.th[t].hg[i] = [count |-> 0, sent |-> FALSE, chan |-> <<>>, n |-> 1, aobj |-> <<c>>, gen |-> g]]
          IN Silent(Block(S1, t, [k |-> "hedge", until |-> IF p.maxh > 0 THEN now + HedgeDelay(p, X.hdg) ELSE -1, coop |-> FALSE, kk |-> 0]))
     [] p.k = "cb" ->
          LET a == BO(p.cfg)!TryAcq(S.pol[p.id], now)
@@ -228,7 +232,8 @@ UpSteps(S, t) ==
   ELSE IF T.kind = "att" /\ i = T.pl THEN
      \* a hedge attempt's goroutine after innerFn returned: resultCount.Add(1) ...
      LET p == Stack[i]   M == S.th[T.pt]   h == M.hg[i] IN
-     IF T.sub = "-" THEN
+     IF T.gen # h.gen THEN Silent(End(S, t))          \* an attempt of an earlier application: its counter / channel are garbage
+     ELSE IF T.sub = "-" THEN
         LET cnt == h.count + 1 IN
         Silent([S EXCEPT !.th[T.pt].hg[i].count = cnt, !.th[t].sub = IF cnt = p.maxh + 1 THEN "final" ELSE "notfinal"])
      ELSE
@@ -298,10 +303,13 @@ WakeSteps(S, t) ==
   CASE w.k = "fn" ->
          LET f == IF w.kk <= Len(cfg.fns[T.x]) THEN cfg.fns[T.x][w.kk] ELSE cfg.fnDefault
              early == w.coop /\ Canceled(X, o)
+             \* what the function reads from its copy of the execution when it ends: the copy's last result, and LastError() =
+             \* the copy's last error, else the context's error once the copy's context is done
+             lastNow == IF IsNil(T.snap.e) /\ Canceled(X, o) THEN Pair(T.snap.r, Err(X, o)) ELSE T.snap
          IN (IF early THEN One([S EXCEPT !.th[t].mode = "fnret", !.th[t].res = PR("R0", Leaf("ECoop"), TRUE, TRUE, TRUE), !.th[t].w = NoWait],
-                                 [ev |-> "FnEnd", x |-> T.x, k |-> w.kk, r |-> "R0", e |-> Leaf("ECoop"), canceled |-> TRUE]) ELSE {})
+                                 [ev |-> "FnEnd", x |-> T.x, k |-> w.kk, r |-> "R0", e |-> Leaf("ECoop"), canceled |-> TRUE, lr |-> lastNow.r, le |-> lastNow.e]) ELSE {})
             \cup (IF w.until <= now THEN One([S EXCEPT !.th[t].mode = "fnret", !.th[t].res = PR(f.r, f.e, TRUE, TRUE, TRUE), !.th[t].w = NoWait],
-                                 [ev |-> "FnEnd", x |-> T.x, k |-> w.kk, r |-> f.r, e |-> f.e, canceled |-> Canceled(X, o)]) ELSE {})
+                                 [ev |-> "FnEnd", x |-> T.x, k |-> w.kk, r |-> f.r, e |-> f.e, canceled |-> Canceled(X, o), lr |-> lastNow.r, le |-> lastNow.e]) ELSE {})
     [] w.k = "rdelay" ->
          IF w.until <= now \/ Canceled(X, o) THEN Silent([S EXCEPT !.th[t].mode = "up", !.th[t].w = NoWait]) ELSE {}
     [] w.k = "sleep" ->
@@ -372,7 +380,7 @@ Steps(S, t) ==
     [] T.mode = "hedgecnt" -> Silent([SetX(S, t, [XX(S, t) EXCEPT !.hdg = @ + 1]) EXCEPT !.th[t].mode = "hedgeev"])
     [] T.mode = "hedgeev" ->      \* OnHedge listener, then `go attempt`, then wait for a result or the next hedge delay
          LET i == T.i   p == Stack[i]   h == T.hg[i]   X == XX(S, t)   c == h.aobj[Len(h.aobj)]
-             at == NewThread(T.x, "att", "down", i + 1, c, t, i, h.n, NoWait)
+             at == [NewThread(T.x, "att", "down", i + 1, c, t, i, h.n, NoWait) EXCEPT !.gen = h.gen]
              S2 == [S EXCEPT !.th = Append(@, at), !.th[t].hg[i].n = h.n + 1, !.th[t].mode = "wait",
                              !.th[t].w = [k |-> "hedge", until |-> IF h.n < p.maxh THEN now + HedgeDelay(p, X.hdg) ELSE -1, coop |-> FALSE, kk |-> 0]]
          IN One(S2, LabA("OnHedge", S, t, i, X.last[c], NoX, c))
@@ -399,7 +407,8 @@ EnvSteps(S) ==
               LET X == FreshExec(e)
                   root == IF e.async THEN 2 ELSE 1
                   m == [NewThread(e.x, "main", "down", 1, root, 0, 0, 0, NoWait) EXCEPT !.mode = IF N = 0 THEN "down" ELSE "down"] IN
-              One([S EXCEPT !.xs[e.x] = X, !.th = Append(@, m)], [ev |-> "Start", x |-> e.x])
+              \* (e.id = "precanceled": the caller's context is already done when the execution starts)
+              One([S EXCEPT !.xs[e.x] = IF e.id = "precanceled" THEN CancelCtx(X, 1, "CtxCanceled") ELSE X, !.th = Append(@, m)], [ev |-> "Start", x |-> e.x])
          [] e.what \in {"CtxCancel", "CtxDeadline", "AsyncCancel"} ->
               LET c == [NewThread(e.x, "canc", "canc", 0, 0, 0, 0, IF e.what = "AsyncCancel" THEN e.gap ELSE 0, NoWait) EXCEPT
                            !.sub = CASE e.what = "CtxCancel" -> "ctx" [] e.what = "CtxDeadline" -> "deadline" [] OTHER -> "async1"] IN
